@@ -116,6 +116,38 @@ def run(prog, rep, tier):
     runner.run_entry(E2, pos_fs)
     n2 = rep.absorb_engine(E2, rule='U1-no-panic')
     rep.floor('Position::from_str obligations', n2, 8)
+    # U4 (after seed C16-s8): the airport part of a reference is an (unanchored) regular expression over the airport
+    # table, and the first match wins; the pattern is compiled in regex's default matching mode.  A mode switch
+    # (case_insensitive, multi_line, dot_matches_new_line, swap_greed, ignore_whitespace, crlf, octal = true, unicode =
+    # false) changes which airport a code selects ("KOBE" then matches the name "Kobe Airport").  Who-calls rule over
+    # the resolved callees of Position::from_str and the workspace functions it calls.
+    MODES = {'case_insensitive': 0, 'multi_line': 0, 'dot_matches_new_line': 0, 'swap_greed': 0, 'ignore_whitespace': 0, 'crlf': 0, 'octal': 0, 'unicode': 1}
+    seen_b, work, nreg = set(), [pos_fs], 0
+    while work:
+        b_ = work.pop()
+        if b_['id'] in seen_b or len(seen_b) > 40:
+            continue
+        seen_b.add(b_['id'])
+        for bb in b_['blocks']:
+            t_ = bb['t']
+            if not (t_ and t_['k'] == 'call' and t_['callee']):
+                continue
+            c_ = t_['callee']
+            if c_.get('rcrate') == 'regex':
+                nreg += 1
+                if c_.get('item') in MODES and 'Builder' in (c_.get('rself') or c_.get('name') or ''):
+                    a_ = t_['args'][1] if len(t_['args']) > 1 else None
+                    dflt = a_ is not None and a_['k'] == 'const' and str((a_.get('v') or {}).get('int', (a_.get('v') or {}).get('bool'))) in (str(MODES[c_['item']]), 'True' if MODES[c_['item']] else 'False', 'true' if MODES[c_['item']] else 'false')
+                    rep.check(dflt, 'U4-default-matching-mode', 'Position::from_str#regex-mode#%s' % c_['item'], '%s:%s' % (b_['file'], t_.get('sp')),
+                              'the reference pattern is compiled with %s switched away from its default: airport codes then select other airports than they name' % c_['item'])
+            wb_ = prog.bodies.get(c_.get('rdid') or c_.get('did'))
+            if wb_ is not None and wb_['crate'] == pos_fs['crate'] and wb_['kind'] in ('fn', 'closure'):
+                work.append(wb_)
+        for cb in prog.bodies.values():
+            if cb['kind'] == 'closure' and cb['name'].startswith(b_['name'] + '::{closure') and cb['id'] not in seen_b:
+                work.append(cb)
+    rep.floor('regex calls below Position::from_str', nreg, 1)
+    rep.ok('U4-default-matching-mode', 'Position::from_str#regex-calls-examined', True, {'regex_calls': nreg, 'bodies': len(seen_b)})
     consts += E2.const_checks
     for kind, lit, good, site in sorted(set(c_[:4] for c_ in consts if c_[0] in ('regex', 'url'))):
         rep.check(good, 'U1-constant-argument', '%s-literal:%s' % (kind, lit), site,
